@@ -70,6 +70,23 @@ class Base:
             val = val + term
         return cs, z3.ZeroExt(128 - Wc, val)
 
+    def sym_digits_radix(self, ex, tag, n, radix):
+        """prefix (0x / 0o / 0b) + n symbolic digits of that radix (first one non-zero): (chars, 128-bit value term)"""
+        from .strmodel import digit_value
+        pre = {16: "0x", 8: "0o", 2: "0b"}[radix]
+        cs = [ord(c) for c in pre]
+        Wc = 64
+        val = z3.BitVecVal(0, Wc)
+        for i in range(n):
+            c = SV(z3.BitVec(f"{tag}_{i}", 32), 32)
+            d = digit_value(c.e)
+            ex.add_constraint(z3.And(z3.ULT(d, radix), z3.UGE(d, 1 if i == 0 else 0)))
+            ex.add_constraint(z3.Or(z3.And(z3.UGE(c.e, 48), z3.ULE(c.e, 57)), z3.And(z3.UGE(c.e, 97), z3.ULE(c.e, 102)), z3.And(z3.UGE(c.e, 65), z3.ULE(c.e, 70))))
+            self.symvars[f"{tag}_{i}"] = c
+            cs.append(c)
+            val = val * radix + z3.ZeroExt(Wc - 32, d)
+        return cs, z3.ZeroExt(128 - Wc, val)
+
     def toks_from(self, text, subst=None):
         """`text`: words separated by blanks; a word `$x` is replaced by subst['x'] (chars or str).  `~` glues to the next word."""
         K = self.fam.kit
@@ -101,13 +118,16 @@ class Base:
         key = tuple((k, tuple(c if isinstance(c, int) else "?" for c in cs), j) for k, cs, j in src.items)
         hit = fam.trees.get(key)
         if hit is None:
+            nd0 = len(ex.decisions)
             root = src.build(ex)
             errors = list(src.errors)
             if not errors:
                 errors += kit.validate(ex, root)
             if len(fam.trees) > 4000:
                 fam.trees.clear()
-            hit = fam.trees[key] = (root, errors)
+            hit = (root, errors)
+            if len(ex.decisions) == nd0:
+                fam.trees[key] = hit          # sharing the tree is sound only if building it took no solver decision
         root, errors = hit
         if errors:
             return self.on_syntax_error(ex, errors)
@@ -270,7 +290,11 @@ def triage(ctx, res, pid, fails, panic_is="skip"):
             continue
         confirmed = None
         for r in info["ex"]:
-            diff = engine_agrees_with_native(r[3])
+            if r[1] == "panic":
+                o = native_check(r[3])
+                diff = None if native.failed(o) else "the native analysis does not panic"
+            else:
+                diff = engine_agrees_with_native(r[3])
             if diff is None:
                 confirmed = r; break
         if confirmed is None:
